@@ -53,10 +53,15 @@ def run_mutant(repo, mutant, target_dir, rule_runner):
     root = os.path.join(scratch, 'repo')
     try:
         copy_repo(repo, root)
-        edits = mutant['edits'] if 'edits' in mutant else [mutant]
-        for e in edits:
-            if not apply_edit(root, e):
-                return dict(status='skipped', failing=[], note='edit does not apply to %s' % e['file'])
+        if 'patch' in mutant:  # an independently seeded change kept as a unified diff (seeded/<id>/patch.diff)
+            r = subprocess.run(['patch', '-p1', '-s', '-i', os.path.abspath(mutant['patch'])], cwd=root, stdout=subprocess.PIPE, stderr=subprocess.STDOUT, text=True)
+            if r.returncode != 0:
+                return dict(status='skipped', failing=[], note='patch does not apply: %s' % r.stdout[-300:])
+        else:
+            edits = mutant['edits'] if 'edits' in mutant else [mutant]
+            for e in edits:
+                if not apply_edit(root, e):
+                    return dict(status='skipped', failing=[], note='edit does not apply to %s' % e['file'])
         fd, log = analyse_copy(root, target_dir)
         if fd is None:
             return dict(status='build-failed', failing=[], note=log[-1500:])
